@@ -156,6 +156,9 @@ def run(index, tier="quick", seed=0) -> Result:
     if n < 5:
         raise AnalysisError("fewer than 5 (class, implementation) pairs")
     from ..parallel import report as _copy1
+    from ..frame3 import check as _frame3
+    for cn_ in ("Polygon", "ConvexPolygon"):
+        _frame3(res, index, cn_, ("compute_form_factor_amplitude",))
     _copy1(res, index, lambda f: f['top'] == 'compute_form_factor_amplitude')
     from ..dimscan import report_translation
     report_translation(res, sc, lambda func, path: "compute_form_factor_amplitude" in func or any("compute_form_factor_amplitude" in p_ for p_ in path[:1]),
